@@ -17,7 +17,12 @@ def recv_cases(cfg):
     real link layer with symbolic addresses / white list, not the request) -> the quick tier is a selection of boundary cases"""
     def f(tier):
         cs = []
-        def add(adv, ln, mode, wln=3, own=0): cs.append({'CFG': cfg, 'ADV': adv, 'LEN': ln, 'MODE': mode, 'WLN': wln, 'OWN': own})
+        def add(adv, ln, mode, wln=3, own=0):
+            # directed advertising (symbolic target address) together with 3 symbolic white list entries gave no verdict in 30 min for LEN 36;
+            # with an empty list (filter switch still symbolic: on = nobody permitted, off = everybody) 160 s
+            if adv == 1 and ln == 36: wln = 0
+            c = {'CFG': cfg, 'ADV': adv, 'LEN': ln, 'MODE': mode, 'WLN': wln, 'OWN': own}
+            if c not in cs: cs.append(c)
         for adv in ADV_OF_CFG[cfg]:
             if tier == 'quick':
                 if cfg == 0:
@@ -64,7 +69,7 @@ def mk_recv(cfg):
                                'directed target, white list and filter switches',
                    bounds='buffer sizes quick: 2, 35, 36, 37 (single type advertiser, handle_adv_receive), 36 / 37 for the other option sets, 36 for adv_received; thorough: every size 0..41 '
                           '(single type advertiser), boundary sizes for the others; every byte of the buffer symbolic incl. PDU type, TxAdd / RxAdd and the length field; '
-                          'white list: 3 arbitrary entries (possibly equal) in use, or empty (case split)')
+                          'white list: 3 arbitrary entries (possibly equal) in use, or empty (case split); directed advertising with a 36 byte buffer: empty list only')
 
 
 def harnesses(tier_all=True):
@@ -106,7 +111,8 @@ PROPERTY = Property(
                 'nRF52 radio interrupt state machine is driven with a symbolic reception and sends the scan response only for a SCAN_REQ of length 12 addressed to the own '
                 'address and type whose sender (ScanA with the type from TxAdd) was accepted by the scan filter, and only when the advertising type provided response data '
                 '(the link layer part shows that only the scannable types do).',
-    outside=['advertising.hpp is_valid_scan_request (advertising_type_base and the advertising types): cannot be instantiated (uses body.begin on a std::pair, and the scannable '
+    outside=['directed advertising combined with a non-empty white list for 36 byte requests (no verdict within 30 min per case); with an empty list the filter switch is still symbolic',
+             'advertising.hpp is_valid_scan_request (advertising_type_base and the advertising types): cannot be instantiated (uses body.begin on a std::pair, and the scannable '
              'type calls the template without its Layout argument), no caller exists; the scan decision of a real system is the radio binding\'s',
              'nRF51 binding (scheduled_radio_base::is_valid_scan_request in nrf51.cpp)', 'register level behaviour of the nRF52 peripherals (stub Hardware class)',
              'hardware white lists (radio_maximum_white_list_entries > 0): no in-repo radio implements one',
